@@ -228,3 +228,9 @@ Proof.
   pose proof (dec_encode y Hy (max (depth x) (depth y)) r2 ltac:(lia)) as H2.
   rewrite E, H2 in H1. injection H1 as <- <-. auto.
 Qed.
+
+Corollary encode_eq_iff x y : canon x = x -> canon y = y -> wf x -> wf y -> (encode x = encode y <-> x = y).
+Proof.
+  intros Hx Hy Wx Wy. split; [|intros ->; reflexivity]. intros E.
+  destruct (encode_injective x y [] [] Wx Wy) as [H _]; [rewrite !app_nil_r; exact E|]. congruence.
+Qed.
